@@ -205,6 +205,10 @@ func (fr *frame) valEq(a, b *Val) Term {
 	if len(a.L) != len(b.L) {
 		return fr.ft.c.Fresh("eq", SBool)
 	}
+	// slice compared with nil: a slice is nil iff its array pointer is nil
+	if len(a.L) == 4 && (isSlice(a.T) || isSlice(b.T)) && (isZeroSliceVal(a) || isZeroSliceVal(b)) {
+		return mkEq(a.L[0], b.L[0])
+	}
 	if isInterface(a.T) || isInterface(b.T) {
 		// comparison with nil: tag only
 		if a.L[0].T == "0" || b.L[0].T == "0" {
